@@ -20,6 +20,12 @@ def _unescape(item:str) -> str:
     #a backslash escapes the character after it (including another backslash)
     return _r_escaped.sub(lambda m: m.group(1), item)
 
+def _unclosed(item:str, quote:str) -> bool:
+    #a quoted item is closed by a quote that is not itself escaped
+    item = item.rstrip()
+    if len(item) < 2 or item[-1] != quote: return True
+    return (len(item) - len(item[:-1].rstrip("\\"))) % 2 == 0
+
 class CsvReader(Filter[Iterable[str], Iterable[MutableSequence]]):
     """A filter capable of parsing CSV formatted data."""
 
@@ -88,7 +94,7 @@ class ArffAttrReader(Filter[Iterable[str], Iterable[Tuple[str,Callable]]]):
 
                 if item[0] in quotes:
                     q  = item[0]
-                    while item.rstrip()[-1] != q or item.rstrip()[-2]=="\\":
+                    while _unclosed(item,q):
                         item += next(items)
 
                     item = _unescape(item.strip().rstrip()[1:-1])
@@ -267,7 +273,7 @@ class ArffLineReader(Filter[str, Sequence[str]]):
 
             if item[0] in self._quotes:
                 possible_quotechar = item[0]
-                while item.rstrip()[-1] != possible_quotechar or item.rstrip()[-2] == "\\":
+                while _unclosed(item,possible_quotechar):
                     item += "," + d_line.popleft()
                 item = item.strip()[1:-1]
 
